@@ -16,6 +16,7 @@ fn seed_alphabet() -> Vec<Argv> {
     for k in ["k1", "k2"] {
         for t in [
             "SET {k} a",
+            "SET {k} \"\"",
             "SET {k} 10",
             "SET {k} 9223372036854775807",
             "SET {k} -9223372036854775808",
